@@ -423,6 +423,11 @@ def run_shard(spec, shard):
         arg = {"length": r.choice(["@.a", "@.a", "@.a[0]", "@.b", "@", "$[0].a"]),
                "count": r.choice(["@.a[*]", "@.*", "@..*", "@.a.*", "@.a", "$[*].a"]),
                "value": r.choice(["@.a", "@.a[0]", "@.*", "@.a.*", "@..a"])}[fn]
+        if fn == "length" and r.random() < 0.35:
+            # the argument is itself a call: what it returns (an empty array, say) is a value, not a nodelist
+            arg = r.choice(["value(%s)", "value(%s)", "pv_v(%s)"]) % r.choice(["@.a", "@.a", "@.b", "@.a[0]", "@.*"])
+            if "pv_v" in arg and "@.*" in arg:
+                arg = "value(@.*)"
         probe = "$[?%s(%s) == 0]" % (fn, arg)
         ast0 = abnf_parse(probe)
         # the reference's value of the call for a random record becomes the right-hand side
